@@ -1,0 +1,36 @@
+//! Verification hooks (compiled only with `--cfg markdown_it_verif`).
+//!
+//! Recursion gauge: counts how deep the mutually recursive tokenizers are nested,
+//! so that unbounded recursion can be measured instead of observed as a crash.
+use std::cell::Cell;
+
+thread_local! {
+    static DEPTH: Cell<u32> = Cell::new(0);
+    static MAX_DEPTH: Cell<u32> = Cell::new(0);
+}
+
+pub struct GaugeGuard;
+
+pub fn enter() -> GaugeGuard {
+    DEPTH.with(|d| {
+        let v = d.get() + 1;
+        d.set(v);
+        MAX_DEPTH.with(|m| if v > m.get() { m.set(v); });
+    });
+    GaugeGuard
+}
+
+impl Drop for GaugeGuard {
+    fn drop(&mut self) {
+        DEPTH.with(|d| d.set(d.get().saturating_sub(1)));
+    }
+}
+
+pub fn reset_gauge() {
+    DEPTH.with(|d| d.set(0));
+    MAX_DEPTH.with(|m| m.set(0));
+}
+
+pub fn max_gauge() -> u32 {
+    MAX_DEPTH.with(|m| m.get())
+}
